@@ -42,6 +42,11 @@ def check(ck):
     H.assoc_path_shape(ck, 'R06.8')
     H.deep_merge_shape(ck, 'R06.8')
     H.deep_merge_shape(ck, 'R06.8', 'deep_merge_multi_update')
+    H.target_not_rebound_by_truthiness(ck, 'R06.8', [
+        ('deep_merge_multi_update', 'library.dict_utils'),
+        ('deep_merge', 'library.dict_utils'),
+        ('deep_merge_check', 'library.dict_utils'),
+        ('deep_merge_combine_lists', 'library.dict_utils')])
     from . import c08 as _c08
     _c08.r08_13(ck, rule='R06.10')
     H.recursion_forwards(ck, 'R06.8', [
